@@ -16,6 +16,7 @@ import LA.Lemmas.NumFmt
 import LA.Lemmas.NumFmt256
 import LA.Lemmas.UstarSpec
 import LA.Lemmas.Stream
+import LA.Lemmas.Cpio
 namespace LA.C10
 open LA.NumFmt LA.Codec
 
@@ -468,5 +469,124 @@ theorem refused_keeps_archive_readable_ustar (es : List (Entry × List (List Nat
 example : ([({ path := some [97] }, []), ({ path := some [98], uid := 262144 }, []), ({ path := some [99] }, [])]
     : List (Entry × List (List Nat))).filter (fun ec => ustarAccepted ec.1)
     = [({ path := some [97] }, []), ({ path := some [99] }, [])] := by decide
+
+/-! ## Part 3: the cpio odc header writer (`write_header` of archive_write_set_format_cpio_odc.c,
+as repaired: saturated fields are reported with ARCHIVE_WARN) against the cpio reader's `atol8` -/
+
+open LA.Gen.CpioLayout in
+/-- **C10 for cpio odc**: if `write_header` returns plain ARCHIVE_OK, every numeric field of the
+76-byte header — dev, the synthesised ino, mode, uid, gid, nlink, rdev, mtime, namesize, filesize —
+parses back with the reader's `atol8` to exactly the value that was formatted, and the header is
+followed by the pathname, its NUL and (for a symlink) the target.  Contrapositive: a uid, gid,
+dev, nlink, rdev or mtime outside the field cannot be answered with ARCHIVE_OK. -/
+theorem ok_implies_exact_odc (st : WState) (e : Entry) (path : List Nat)
+    (hok : (odcWriteHeaderCore st e path).st = .ok) :
+    ∃ hdr ino, (odcWriteHeaderCore st e path).bytes = hdr ++ path ++ [0] ++ e.sym ∧ hdr.length = odcr_header_size ∧
+      ∀ f ∈ odcFields e ino ((path.length : Int) + 1) (cpioFilesize e),
+        ((cpioAtol8 (slice hdr f.off f.size) 0 : Nat) : Int) = f.v := by
+  unfold odcWriteHeaderCore at hok ⊢
+  simp only [] at hok ⊢
+  generalize hino : (synthIno st e).1 = ino at hok ⊢
+  by_cases h1 : ino > 262143
+  · rw [if_pos h1] at hok; cases hok
+  · rw [if_neg h1] at hok ⊢
+    by_cases h2 : (odcFormatOctal ((path.length : Int) + 1) odcw_namesize_size).1 = true
+    · rw [if_pos h2] at hok; cases hok
+    · rw [if_neg h2] at hok ⊢
+      by_cases h3 : (odcFormatOctal (cpioFilesize e) odcw_filesize_size).1 = true
+      · rw [if_pos h3] at hok; cases hok
+      · rw [if_neg h3] at hok ⊢
+        simp only [] at hok ⊢
+        have hov : cpioOverflow odcFormatOctal (odcFields e ino ((path.length : Int) + 1) (cpioFilesize e)) = false := by
+          cases hc : cpioOverflow odcFormatOctal (odcFields e ino ((path.length : Int) + 1) (cpioFilesize e)) with
+          | false => rfl
+          | true => rw [hc] at hok; cases hok
+        refine ⟨_, ino, rfl, cpioHeaderBytes_length _ _ _ odcFormatOctal_length (odcFields_in e ino _ _), ?_⟩
+        intro f hf
+        apply odc_field_roundtrip e ino _ _ f hf
+        · -- no field overflowed
+          unfold cpioOverflow at hov
+          rw [List.any_eq_false] at hov
+          have hcounted := hov f hf
+          simp only [odcFields, List.mem_cons, List.mem_nil_iff, or_false] at hf
+          rcases hf with rfl | rfl | rfl | rfl | rfl | rfl | rfl | rfl | rfl | rfl | rfl
+          · decide
+          all_goals try (simpa using hcounted)
+          · -- the synthesised ino, masked to 18 bits
+            rw [odcFormatOctal_eq]
+            have hm : 0 ≤ ino % 262144 ∧ (ino % 262144).toNat < 8 ^ odcw_ino_size := by
+              have : (8 : Nat) ^ odcw_ino_size = 262144 := by decide
+              rw [this]; omega
+            rw [if_pos hm]
+          · simpa using h2
+          · simpa using h3
+        · simp only [odcFields, List.mem_cons, List.mem_nil_iff, or_false] at hf
+          rcases hf with rfl | rfl | rfl | rfl | rfl | rfl | rfl | rfl | rfl | rfl | rfl <;> (simp only []; decide)
+
+/-- uid 262143 is accepted; one more gives ARCHIVE_WARN (before the repair: ARCHIVE_OK with
+262143 stored). -/
+example : (odcWriteHeaderCore {} { path := some [97], uid := 262143 } [97]).st = .ok
+    ∧ (odcWriteHeaderCore {} { path := some [97], uid := 262144 } [97]).st = .warn
+    ∧ (odcWriteHeaderCore {} { path := some [97], mtime := -1 } [97]).st = .warn := by decide
+
+open LA.Gen.CpioLayout in
+/-- **C10 for cpio newc** (as repaired): plain ARCHIVE_OK ⇒ every field of the 110-byte header
+parses back with the reader's `atol16` to the value that was formatted. -/
+theorem ok_implies_exact_newc (st : WState) (e : Entry) (path : List Nat) (dM dm : Int)
+    (hpl : path.length < 2147483647)      -- the C keeps the name length in an `int`
+    (hok : (newcWriteHeaderCore st e path dM dm).st = .ok) :
+    ∃ hdr, (newcWriteHeaderCore st e path dM dm).bytes.take newcr_header_size = hdr ∧ hdr.length = newcr_header_size ∧
+      ∀ f ∈ newcFields e dM dm ((path.length : Int) + 1) (cpioFilesize e),
+        ((cpioAtol16 (slice hdr f.off f.size) 0 : Nat) : Int) = f.v := by
+  unfold newcWriteHeaderCore at hok ⊢
+  simp only [] at hok ⊢
+  by_cases h3 : (newcFormatHex (cpioFilesize e) newcw_filesize_size).1 = true
+  · rw [if_pos h3] at hok; cases hok
+  · rw [if_neg h3] at hok ⊢
+    simp only [] at hok ⊢
+    have hlen := cpioHeaderBytes_length newcFormatHex newcr_header_size
+      (newcFields e dM dm ((path.length : Int) + 1) (cpioFilesize e)) newcFormatHex_length (newcFields_in e dM dm _ _)
+    have hov : cpioOverflow newcFormatHex (newcFields e dM dm ((path.length : Int) + 1) (cpioFilesize e)) = false
+        ∧ ¬ e.ino > 4294967295 := by
+      cases hc : cpioOverflow newcFormatHex (newcFields e dM dm ((path.length : Int) + 1) (cpioFilesize e)) with
+      | true => rw [hc] at hok; cases hok
+      | false =>
+        rw [hc] at hok
+        refine ⟨rfl, ?_⟩
+        intro hi
+        simp only [Bool.false_or, decide_eq_true_eq, if_pos hi] at hok
+        cases hok
+    refine ⟨_, ?_, hlen, ?_⟩
+    · rw [List.append_assoc, List.append_assoc, List.append_assoc, List.take_append_of_le_length (by omega),
+        List.take_of_length_le (by omega)]
+    · intro f hf
+      apply newc_field_roundtrip e dM dm _ _ f hf
+      · have hov1 := hov.1
+        unfold cpioOverflow at hov1
+        rw [List.any_eq_false] at hov1
+        have hcounted := hov1 f hf
+        simp only [newcFields, List.mem_cons, List.mem_nil_iff, or_false] at hf
+        rcases hf with rfl | rfl | rfl | rfl | rfl | rfl | rfl | rfl | rfl | rfl | rfl | rfl | rfl | rfl
+        · decide
+        all_goals try (simpa using hcounted)
+        · -- ino masked to 32 bits
+          rw [newcFormatHex_eq]
+          have hm : 0 ≤ e.ino % 4294967296 ∧ (e.ino % 4294967296).toNat < 16 ^ newcw_ino_size := by
+            have : (16 : Nat) ^ newcw_ino_size = 4294967296 := by decide
+            rw [this]; omega
+          rw [if_pos hm]
+        · -- namesize: an `int` + 1 always fits eight hex digits
+          rw [newcFormatHex_eq]
+          have hm : 0 ≤ (path.length : Int) + 1 ∧ ((path.length : Int) + 1).toNat < 16 ^ newcw_namesize_size := by
+            have : (16 : Nat) ^ newcw_namesize_size = 4294967296 := by decide
+            rw [this]; omega
+          rw [if_pos hm]
+        · decide
+        · simpa using h3
+      · simp only [newcFields, List.mem_cons, List.mem_nil_iff, or_false] at hf
+        rcases hf with rfl | rfl | rfl | rfl | rfl | rfl | rfl | rfl | rfl | rfl | rfl | rfl | rfl | rfl <;> (simp only []; decide)
+
+example : (newcWriteHeaderCore {} { path := some [97], uid := 4294967295 } [97] 0 5).st = .ok
+    ∧ (newcWriteHeaderCore {} { path := some [97], uid := 4294967296 } [97] 0 5).st = .warn := by decide
 
 end LA.C10
